@@ -53,6 +53,18 @@ Proof. vm_compute. reflexivity. Qed.
         cases = [{"cls": cls, "threads": 2, "schedule": sc} for cls in classes for sc in scheds]
         for _ in range(600):
             cases.append({"cls": c.rng.choice(classes), "threads": 3, "schedule": [c.rng.randrange(3) for _ in range(45)]})
+    # fine-grained alternation through the arithmetic layer (compound operands): thread 0 runs o lines, then blocks of 1..3 lines alternate
+    fine = []
+    for o in range(0, 14 if c.tier == "quick" else 22):
+        for blocks in itertools.product((1, 2, 3), repeat=4):
+            sc, t = [0] * o, 1
+            for b in blocks:
+                sc += [t] * b; t = 1 - t
+            fine.append(sc)
+    c.rng.shuffle(fine)
+    for cls in ("UnitMulCompound", "UnitDivCompound"):
+        for sc in fine[:(220 if c.tier == "quick" else len(fine))]:
+            cases.append({"cls": cls, "threads": 2, "schedule": sc})
     # several worker processes in parallel
     import concurrent.futures
     chunks = [cases[i::8] for i in range(8)]
